@@ -144,7 +144,7 @@ pub fn run(reg: &Registry, seed: u64, count: u64, threads: usize, out_path: &str
         .ops
         .iter()
         .enumerate()
-        .filter(|(_, o)| !o.stub && only.map(|s| s.split(',').any(|t| o.name.contains(t))).unwrap_or(true))
+        .filter(|(_, o)| !o.stub && !o.skip_catalogue && only.map(|s| s.split(',').any(|t| o.name.contains(t))).unwrap_or(true))
         .map(|(i, _)| i)
         .collect();
     let results = rt::par_shards(
